@@ -7,6 +7,7 @@ import ToastyVerif.Model.Pyramid
 import ToastyVerif.Model.Select
 import ToastyVerif.Gen.Parity
 import ToastyVerif.Gen.Samplers
+import ToastyVerif.Model.Publish
 
 namespace Driver
 
@@ -258,6 +259,32 @@ def handleSampler (variant : String) (a : List String) : String :=
     | _, _, _, _ => "bad-op"
   | _ => "bad-op"
 
+/-! ### publish histories: `pub hist <files,comma> <run> <run> …`, run = `<listing,comma>:<k>:<mid 0/1>:<renamed 0/1>` -/
+
+def showSt : Pub.St → String
+  | .absent => "A" | .part => "P" | .complete => "C"
+
+def parseRun (s : String) : Option Pub.Run :=
+  match s.splitOn ":" with
+  | [l, k, m, r] => match k.toNat? with
+    | some k => some ⟨l.splitOn ",", k, m == "1", r == "1"⟩
+    | none => none
+  | _ => none
+
+def handlePub (op : String) (a : List String) : String :=
+  match op, a with
+  | "reorder", [l] => ",".intercalate (Gen.Publish.reorder (l.splitOn ","))
+  | "hist", files :: runs =>
+    match runs.mapM parseRun with
+    | none => "bad-op"
+    | some rs =>
+      let fs := files.splitOn ","
+      let step := fun (acc : Pub.World × List String) (r : Pub.Run) =>
+        let w := Pub.applyRun Gen.Publish.put_atomic acc.1 r
+        (w, acc.2 ++ [s!"{"".intercalate (fs.map fun f => showSt (w.store f))}{if w.moved then "M" else "-"}{if decide (Pub.Safe fs w) then "" else "!"}"])
+      " ".intercalate (rs.foldl step (Pub.World.init, [])).2
+  | _, _ => "bad-op"
+
 def handle (toks : List String) : String :=
   match toks with
   | "gen" :: op :: args => match ints args with
@@ -270,6 +297,7 @@ def handle (toks : List String) : String :=
   | "scan" :: op :: args => handleScan op args
   | "parity" :: op :: args => handleParity op args
   | "sampler" :: variant :: args => handleSampler variant args
+  | "pub" :: op :: args => handlePub op args
   | _ => "bad-op"
 
 end Driver
